@@ -12,6 +12,7 @@ from xml.sax import SAXParseException
 from xml.sax import expatreader  # type: ignore[attr-defined, unused-ignore]
 from xml.dom import pulldom
 from pyexpat import XMLParserType
+from xml.parsers import expat
 
 from xmlschema.aliases import IOType
 from xmlschema.exceptions import XMLSchemaTypeError, XMLSchemaValueError, \
@@ -40,6 +41,9 @@ class SafeExpatParser(expatreader.ExpatParser):  # type: ignore[misc, unused-ign
         self._parser.EntityDeclHandler = self.forbid_entity_declaration
         self._parser.UnparsedEntityDeclHandler = self.forbid_unparsed_entity_declaration
         self._parser.ExternalEntityRefHandler = self.forbid_external_entity_reference
+
+        # Report the external DTD subset also for standalone documents
+        self._parser.SetParamEntityParsing(expat.XML_PARAM_ENTITY_PARSING_ALWAYS)
 
 
 def defuse_xml(fp: IOType, rewind: bool = True) -> IOType:
